@@ -242,6 +242,9 @@ func (e *DNSEntry) decodeRRs(count int, p DNS, offset int, buffer []byte) (int, 
 			}
 
 		case 12: // PTR record
+			if !strings.HasSuffix(string(name), ".in-addr.arpa") { // ip6.arpa and service pointers are well formed: not kept
+				break
+			}
 			s := strings.TrimSuffix(string(name), ".in-addr.arpa")
 			tmp := net.ParseIP(s)
 			if tmp == nil {
